@@ -1,6 +1,7 @@
 //! C11 — directory assets list exactly the matching ids of a directory / subtree.
 use crate::common::*;
 use crate::world::*;
+use assets_manager::source::Source as _;
 use assets_manager::{AnyCache, AssetCache, Directory, RecursiveDirectory};
 use detsim::SplitMix;
 use serde::{Deserialize, Serialize};
@@ -15,6 +16,43 @@ pub enum DT {
     LBC,
     LE,
     ArcLA,
+    /// a type with its own DirLoadable implementation (extension "b" only, ids reported twice and unsorted,
+    /// sub-directories whose name starts with 'c' are not descended into), and the same behind an Arc
+    Picky,
+    ArcPicky,
+}
+
+/// A compound with a hand-written `DirLoadable`.
+pub struct Picky(pub String);
+impl assets_manager::Compound for Picky {
+    fn load(_cache: AnyCache, id: &assets_manager::SharedString) -> Result<Self, assets_manager::BoxedError> {
+        Ok(Picky(id.to_string()))
+    }
+}
+fn picky_skips(dir_id: &str) -> bool {
+    dir_id.rsplit('.').next().unwrap_or("").starts_with('c')
+}
+impl assets_manager::asset::DirLoadable for Picky {
+    fn select_ids(cache: AnyCache, id: &assets_manager::SharedString) -> std::io::Result<Vec<assets_manager::SharedString>> {
+        let mut ids = Vec::new();
+        cache.raw_source().read_dir(id, &mut |e| {
+            if let assets_manager::source::DirEntry::File(i, "b") = e {
+                ids.push(i.into());
+                ids.push(i.into());
+            }
+        })?;
+        ids.reverse();
+        Ok(ids)
+    }
+    fn sub_directories(cache: AnyCache, id: &assets_manager::SharedString, mut f: impl FnMut(&str)) -> std::io::Result<()> {
+        cache.raw_source().read_dir(id, &mut |e| {
+            if let assets_manager::source::DirEntry::Directory(d) = e {
+                if !picky_skips(d) {
+                    f(d);
+                }
+            }
+        })
+    }
 }
 impl DT {
     fn exts(self) -> &'static [&'static str] {
@@ -23,6 +61,13 @@ impl DT {
             DT::LAB => &["a", "b"],
             DT::LBC => &["b", "c"],
             DT::LE => &[""],
+            DT::Picky | DT::ArcPicky => &["b"],
+        }
+    }
+    fn skips(self) -> fn(&str) -> bool {
+        match self {
+            DT::Picky | DT::ArcPicky => picky_skips,
+            _ => |_| false,
         }
     }
 }
@@ -96,10 +141,10 @@ pub fn expect_dir(t: &Tree, exts: &[&str], d: &str) -> Option<Vec<String>> {
     let set: BTreeSet<String> = t.files.keys().map(|k| unfkey(k)).filter(|(id, e)| parent_id(id) == Some(d) && exts.contains(e)).map(|(id, _)| id.to_string()).collect();
     Some(set.into_iter().collect())
 }
-pub fn expect_rec(t: &Tree, exts: &[&str], d: &str) -> Option<BTreeSet<String>> {
+pub fn expect_rec(t: &Tree, exts: &[&str], d: &str, skips: fn(&str) -> bool) -> Option<BTreeSet<String>> {
     let mut set: BTreeSet<String> = expect_dir(t, exts, d)?.into_iter().collect();
-    for c in t.dirs.iter().filter(|c| parent_id(c) == Some(d)) {
-        if let Some(s) = expect_rec(t, exts, c) {
+    for c in t.dirs.iter().filter(|c| parent_id(c) == Some(d) && !skips(c)) {
+        if let Some(s) = expect_rec(t, exts, c, skips) {
             set.extend(s);
         }
     }
@@ -114,6 +159,8 @@ macro_rules! with_dt {
             DT::LBC => { type $T = LBC; $body }
             DT::LE => { type $T = LE; $body }
             DT::ArcLA => { type $T = Arc<LA>; $body }
+            DT::Picky => { type $T = Picky; $body }
+            DT::ArcPicky => { type $T = Arc<Picky>; $body }
         }
     };
 }
@@ -148,7 +195,7 @@ impl Property for C11 {
         } else {
             None
         };
-        let tys = [DT::LA, DT::LAB, DT::LBC, DT::LE, DT::ArcLA];
+        let tys = [DT::LA, DT::LAB, DT::LBC, DT::LE, DT::ArcLA, DT::Picky, DT::ArcPicky];
         let mut dirs: Vec<String> = tree.dirs.iter().cloned().collect();
         dirs.push(String::new());
         dirs.push("missing".into());
@@ -315,7 +362,7 @@ fn check_query(any: AnyCache, t: &Tree, q: &Query, cached: &mut BTreeSet<(String
             }
         }
     } else {
-        let exp = expect_rec(t, exts, d);
+        let exp = expect_rec(t, exts, d, q.ty.skips());
         let got: Option<Vec<String>> = with_dt!(q.ty, T, any.load_rec_dir::<T>(d).ok().map(|h| h.read().ids().map(|s| s.to_string()).collect()));
         let got_set: Option<BTreeSet<String>> = got.as_ref().map(|v| v.iter().cloned().collect());
         detsim::check(got_set == exp, "C11/recursive-directory-ids", || format!("[{}] load_rec_dir::<{tyname}>({d:?}) = {got:?}, the tree says {exp:?} (as a set; None = error)", SRC_NAME.with(|n| n.get())));
@@ -326,6 +373,9 @@ fn check_query(any: AnyCache, t: &Tree, q: &Query, cached: &mut BTreeSet<(String
                 detsim::count("reach.recursion_two_levels");
             }
             let kids: Vec<&String> = t.dirs.iter().filter(|c| parent_id(c) == Some(d.as_str())).collect();
+            if kids.iter().any(|c| (q.ty.skips())(c)) && matches!(q.ty, DT::ArcPicky) {
+                detsim::count("reach.custom_sub_directories_behind_arc");
+            }
             if kids.iter().any(|c| t.bad_dirs.contains_key(*c)) && kids.iter().any(|c| !t.bad_dirs.contains_key(*c)) {
                 detsim::count("reach.unreadable_subdir_skipped");
             }
